@@ -1,6 +1,7 @@
 CONSTANTS
   D = 2
   Wide = FALSE
+  Cat = 1
 SPECIFICATION TraceSpec
 CONSTRAINT HighWater
 INVARIANTS InvAccept InvNamesVar InvNamesPath InvNoEcho
